@@ -30,6 +30,15 @@ class ClassParser(BaseParser):
             raise TypeError(f"{self.__class__}: object need to be a class, got {obj}")
         # a class declared inside a function can name what is visible there (e.g. another local class)
         self.local_namespace = self.get_local_namespace() if is_local_var(obj) else None
+        if self.local_namespace:
+            # the classes declared earlier in the same function can name this one too (by string, resolved at their
+            # first parse): their snapshot was taken before this class existed
+            scope = obj.__qualname__.rsplit('.', 1)[0]
+            for val in self.local_namespace.values():
+                parser = getattr(val, '__parser__', None) if isinstance(val, type) else None
+                if isinstance(parser, ClassParser) and parser.local_namespace is not None \
+                        and val.__qualname__.rsplit('.', 1)[0] == scope:
+                    parser.local_namespace[obj.__name__] = obj
         super().__init__(obj, *args, **kwargs)
         self.init_parser = None
 
